@@ -517,6 +517,7 @@ Definition date_names : list str := [s_DATE; s_DAT1; s_DAT2; s_DAT3].
 Definition parse_col (name : str) (dropped : bool) : bool :=
   negb dropped && negb (mems name (s_TIME :: date_names)).
 
+(* the df[column].apply(_convert_data_item) loop over parse_columns, seen from one row *)
 Fixpoint convert_row (nullstr mdt : str) (parse : list bool) (r : list (option str)) : res (list icell) :=
   match parse, r with
   | p :: ps, x :: xs =>
@@ -525,15 +526,15 @@ Fixpoint convert_row (nullstr mdt : str) (parse : list bool) (r : list (option s
   | _, _ => Ok []
   end.
 
-Definition col_of {A} (d : A) (rows : list (list A)) (j : nat) : list A := map (fun r => nth j r d) rows.
-Fixpoint set_nth {A} (j : nat) (v : A) (r : list A) : list A :=
-  match r, j with
-  | [], _ => []
-  | _ :: tl, 0 => v :: tl
-  | x :: tl, S k => x :: set_nth k v tl
+(* the frame column by column *)
+Record column := mkCol { col_name : str; col_drop : bool; col_cells : list icell }.
+
+Definition hd_cell (r : list icell) : icell := match r with c :: _ => c | [] => IRaw None end.
+Fixpoint columns_of (names : list str) (drops : list bool) (rows : list (list icell)) : list column :=
+  match names, drops with
+  | nm :: ns, d :: ds => mkCol nm d (map hd_cell rows) :: columns_of ns ds (map (@tl icell) rows)
+  | _, _ => []
   end.
-Definition set_col {A} (rows : list (list A)) (j : nat) (vals : list A) : list (list A) :=
-  map (fun rv => set_nth j (snd rv) (fst rv)) (combine rows vals).
 
 Definition cell_eqb (a b : cell) : bool :=
   match a, b with
@@ -572,9 +573,11 @@ Definition make_ids_unique (ids : list cell) : list cell :=
 
 Definition icell_val (c : icell) : cell := match c with IVal v => v | IRaw _ => CNaN end.
 
-(* which column is the id column: 'ID' if present, else 'L1' if present *)
-Definition id_index (names : list str) : option nat :=
-  match index_of s_ID names with Some j => Some j | None => index_of s_L1 names end.
+(* which column is the id column: 'ID' if there is such a column (dropped or not), else 'L1' *)
+Definition id_label (names : list str) : option str :=
+  if mems s_ID names then Some s_ID else if mems s_L1 names then Some s_L1 else None.
+Definition is_label (l : option str) (nm : str) : bool :=
+  match l with Some x => str_eqb x nm | None => false end.
 
 (* int('...') of a Python str: optional sign, digit group *)
 Definition pyint_ok (s : str) : bool :=
@@ -589,59 +592,52 @@ Definition to_int32 (c : cell) : res cell :=
 
 Definition int32_names : list str := [s_ID; s_L1; s_DVID].
 
-(* after conversion: ids, the "make ID int if possible" test (only its error behaviour matters),
-   TIME, and the final astype(dtype) per column *)
+(* the final astype(dtype[column]): dropped -> str, ID/L1/DVID -> int32, else float64 / text *)
 Definition finish_cell (name : str) (dropped : bool) (c : icell) : res cell :=
   match c with
   | IRaw (Some s) => Ok (CStr s)
   | IRaw None => Ok CNaN
   | IVal v => if negb dropped && mems name int32_names then to_int32 v else Ok v
   end.
-
-Fixpoint finish_row (names : list str) (drops : list bool) (r : list icell) : res (list cell) :=
-  match names, drops, r with
-  | nm :: ns, d :: ds, c :: cs =>
-      bind (finish_cell nm d c) (fun v => bind (finish_row ns ds cs) (fun vs => Ok (v :: vs)))
-  | _, _, _ => Ok []
-  end.
+Definition finish_col (c : column) : res (str * list cell) :=
+  bind (mapM (finish_cell (col_name c) (col_drop c)) (col_cells c)) (fun cells => Ok (col_name c, cells)).
 
 Definition has_date (names : list str) : bool := existsb (fun d => mems d names) date_names.
 
-Definition postprocess (names : list str) (drops : list bool) (nullstr mdt : str)
-           (rows : list (list icell)) : res (list (list cell)) :=
-  (* _make_ids_unique(df, parse_columns) *)
-  let rows1 :=
-    match id_index names with
-    | Some j => if parse_col (nth j names []) (nth j drops false)
-                then set_col rows j (map IVal (make_ids_unique (map icell_val (col_of (IRaw None) rows j))))
-                else rows
-    | None => rows
-    end in
-  (* all(df[idcol].astype('int32') == df[idcol]) *)
-  bind (match id_index names with
-        | Some j =>
-            mapM (fun c => match c with
-                           | IVal (CNum _) => Ok tt
-                           | IVal _ => Err ValueErr
-                           | IRaw (Some s) => if pyint_ok s then Ok tt else Err ValueErr
-                           | IRaw None => Err OtherErr
-                           end) (col_of (IRaw None) rows1 j)
-        | None => Ok []
-        end) (fun _ =>
-  (* TIME is converted when every item converts, else left as text *)
-  let rows2 :=
-    match index_of s_TIME names with
-    | Some j =>
-        if has_date names || nth j drops false then rows1
-        else match mapM (fun c => match c with
-                                  | IRaw x => convert_item nullstr mdt x
-                                  | IVal v => Ok v end) (col_of (IRaw None) rows1 j) with
-             | Ok vals => set_col rows1 j (map IVal vals)
-             | Err _ => rows1
-             end
-    | None => rows1
-    end in
-  mapM (finish_row names drops) rows2).
+(* _make_ids_unique(df, parse_columns) *)
+Definition ids_step (lbl : option str) (c : column) : column :=
+  if is_label lbl (col_name c) && parse_col (col_name c) (col_drop c)
+  then mkCol (col_name c) (col_drop c) (map IVal (make_ids_unique (map icell_val (col_cells c))))
+  else c.
+
+(* all(df[idcol].astype('int32') == df[idcol]) : only its error behaviour matters *)
+Definition id_check_cell (c : icell) : res unit :=
+  match c with
+  | IVal (CNum _) => Ok tt
+  | IVal _ => Err ValueErr
+  | IRaw (Some s) => if pyint_ok s then Ok tt else Err ValueErr
+  | IRaw None => Err OtherErr
+  end.
+Definition id_check (lbl : option str) (c : column) : res unit :=
+  if is_label lbl (col_name c) then bind (mapM id_check_cell (col_cells c)) (fun _ => Ok tt) else Ok tt.
+
+(* TIME is converted when every item converts, else left as text (a dropped TIME column is outside
+   the model: the code converts it and prints the floats back to text) *)
+Definition time_step (nullstr mdt : str) (dates : bool) (c : column) : column :=
+  if str_eqb (col_name c) s_TIME && negb dates && negb (col_drop c) then
+    match mapM (fun x => match x with
+                         | IRaw y => convert_item nullstr mdt y
+                         | IVal v => Ok v end) (col_cells c) with
+    | Ok vals => mkCol (col_name c) (col_drop c) (map IVal vals)
+    | Err _ => c
+    end
+  else c.
+
+Definition postprocess (lbl : option str) (dates : bool) (nullstr mdt : str) (cols : list column)
+  : res (list (str * list cell)) :=
+  let cols1 := map (ids_step lbl) cols in
+  bind (mapM (id_check lbl) cols1) (fun _ =>
+  mapM finish_col (map (time_step nullstr mdt dates) cols1)).
 
 (* =================================================================================================
    the whole reader: Model.dataset of a $PRED model
@@ -666,16 +662,19 @@ Definition null_string (c : option N) : res str :=
 
 Definition ign_char (c : option N) : N := match c with Some ch => ch | None => c_hash end.
 
-Definition read_model (i : input) : res (list str * list (list cell)) :=
+Definition kept_names (names : list str) (drops : list bool) : list str :=
+  map fst (filter (fun nd => negb (snd nd)) (combine names drops)).
+
+(* the result: columns in order, each with its name and its cells *)
+Definition read_model (i : input) : res (list (str * list cell)) :=
   bind (column_info (i_options i)) (fun ci =>
   let names := ci_names ci in
   let drops := ci_drop ci in
   bind (null_string (i_null i)) (fun nullstr =>
-  let nondropped := map fst (filter (fun nd => negb (snd nd)) (combine names drops)) in
-  if negb (nodup_s nondropped) then Err KeyErr else
+  if negb (nodup_s (kept_names names drops)) then Err KeyErr else
   bind (prefilter (ign_char (i_ignchar i)) (i_text i)) (fun p =>
   bind (frame (length names) nullstr (raw_rows p)) (fun fr =>
   bind (filter_ignore_accept names (ci_syn ci) nullstr (i_mdt i) (i_ignore i) (i_accept i) fr) (fun fr' =>
   bind (mapM (convert_row nullstr (i_mdt i) (map (fun nd => parse_col (fst nd) (snd nd)) (combine names drops))) fr')
        (fun rows =>
-  bind (postprocess names drops nullstr (i_mdt i) rows) (fun out => Ok (names, out)))))))).
+  postprocess (id_label names) (has_date names) nullstr (i_mdt i) (columns_of names drops rows))))))).
